@@ -177,7 +177,8 @@ def _apply_sub(text, regex, repl, opts, what, lo=0, hi=None):
         lim = len(text) if hi is None else hi
         mm = None
         for cand in re.compile(regex, flags).finditer(text, pos, lim):
-            if m[cand.start()]:
+            st = cand.start()
+            if m[st] or (text[st] in '"r' and (st == 0 or m[st - 1]) and cand.group(0)[:1] in '"r'):
                 mm = cand
                 break
         if mm is None:
